@@ -1,4 +1,4 @@
-package checks
+package c17
 
 import (
 	"bytes"
